@@ -508,8 +508,8 @@ Definition parked_ok (a : assoc) : bool :=
   match a_once a with
   | ONew =>
     (* live association: reader in Read, select loop and monitor in their select, or not yet accepted *)
-    let at0 t := thr_done t || (Nat.eqb (t_pc t) 0 && match t_fn t with FDo => false | _ => true end) in
-    at0 (a_rd a) && at0 (a_sel a) && at0 (a_hb a) && at0 (a_fst a)
+    let at_wait k t := thr_done t || (Nat.eqb (t_pc t) k && match t_fn t with FDo => false | _ => true end) in
+    at_wait 0 (a_rd a) && at_wait 0 (a_sel a) && at_wait 1 (a_hb a) && at_wait 0 (a_fst a)
   | ORun _ => false
   | ODone => assoc_threads_done a
   end.
